@@ -93,6 +93,26 @@ func (ctx *continueCtx) enterSwitch(namer *namer) string {
 	return ""
 }
 
+// enterNestedSwitch records entering a regular (not do-while) switch. It takes
+// part in the forwarding only when it is nested in a forwarding switch: there a
+// continue is rendered as a break, which leaves this switch alone, so the
+// break has to be repeated after it (exitSwitch answers exitBreak).
+// Returns whether the switch was recorded and must be left with exitSwitch.
+func (ctx *continueCtx) enterNestedSwitch() bool {
+	if len(ctx.stack) == 0 {
+		return false
+	}
+	top := &ctx.stack[len(ctx.stack)-1]
+	if top.kind != nestingSwitch {
+		return false
+	}
+	ctx.stack = append(ctx.stack, nesting{
+		kind:     nestingSwitch,
+		variable: top.variable,
+	})
+	return true
+}
+
 // exitSwitch records leaving a Switch statement.
 // Returns what code should be emitted after the switch, or an error if the
 // nesting stack is out of sync.
